@@ -13,7 +13,7 @@
               ++ [alternate]. *)
 From Coq Require Import List Bool Arith.
 Import ListNotations.
-From ZI Require Import Model.Adapt Spec.Pep246 Proofs.Adapt.
+From ZI Require Import Model.Adapt Spec.Pep246 Proofs.Adapt Model.PyKernel Model.CKernel Proofs.AdaptGen.
 
 (* outcome and executed steps are those of the five-step precedence, for every behaviour, every
    hook list and every chain *)
@@ -148,6 +148,29 @@ Theorem C14_hook_equals_queryAdapter : forall p c q alt,
 Proof. exact hook_equals_queryAdapter. Qed.
 Print Assumptions C14_hook_equals_queryAdapter.
 
+(* ------------------------------------------------------------------ tie to the source text *)
+
+(* The Python kernels as regenerated from interface.py on this run (Gen/AdaptPy.v), executed by the
+   interpreter of Model/PyKernel.v, are the model: InterfaceBase.__call__ = py_call (log and how the
+   function ends), InterfaceBase.__adapt__ = py_default_adapt, InterfaceClass._call_conform =
+   call_conform, and the flag conditions of InterfaceClass.__new__ / __init_subclass__ give new_kls. *)
+Theorem C14_generated_py_eq_model : forall k o,
+  gen_call k o = (fst (py_call k o), ctl_of_outcome (snd (py_call k o))) /\
+  gen_default_adapt k o = (fst (py_default_adapt k o), ctl_of_ares (snd (py_default_adapt k o))) /\
+  (forall c, gen_call_conform o c = ([EvCallConform], eres_of_cres (call_conform c))) /\
+  (forall i cls l, gen_new_kls i cls l = new_kls true i cls l).
+Proof. exact generated_py_eq_model. Qed.
+Print Assumptions C14_generated_py_eq_model.
+
+(* The C kernels as extracted from _zope_interface_coptimizations.c on this run (Gen/AdaptC.v),
+   executed by the interpreter of Model/CKernel.v, are the model: IB__call__ = c_call and
+   IB__adapt__ = c_default_adapt. *)
+Theorem C14_generated_c_eq_model : forall k o,
+  gen_c_call k o = (fst (c_call k o), kctl_of_outcome (snd (c_call k o))) /\
+  gen_c_default_adapt k o = (fst (c_default_adapt k o), kctl_of_ares (snd (c_default_adapt k o))).
+Proof. exact generated_c_eq_model. Qed.
+Print Assumptions C14_generated_c_eq_model.
+
 (* ------------------------------------------------------------------ non-vacuity *)
 
 (* the combination the property record names: conform returns None AND a hook raises AND an
@@ -217,3 +240,13 @@ Example C14_witness_providedBy :
   prov_defs 0 chain = [(1, PBDelegate); (0, PBFalse)] /\
   provided_passes (prov_defs 0 chain) (mkObj CAbsent true [HValue 3] None) = true.
 Proof. cbv. repeat split; reflexivity. Qed.
+
+(* the generated kernels run: the combination witness through the regenerated Python and C text *)
+Example C14_witness_generated :
+  let o := mkObj CRetNone false [HNone; HRaise (mkExn EOther 7); HValue 5] (Some 9) in
+  gen_call (type_of_chain true []) o =
+    ([EvGetConform; EvCallConform; EvProvided; EvHook 0; EvHook 1], CExc (User (mkExn EOther 7))) /\
+  gen_c_call (type_of_chain true []) o =
+    ([EvGetConform; EvCallConform; EvProvided; EvHook 0; EvHook 1],
+     KRet WNull (Some (ERaised (User (mkExn EOther 7))))).
+Proof. split; vm_compute; reflexivity. Qed.
